@@ -1,47 +1,11 @@
-(* Bridge lemmas for property C19: every formula slice extracted from
-   /repo/src/bldfm/ffm_kormann_meixner.py by the slice translator (Gen.GenKM, regenerated on every run;
-   a Section over `Gamma : R -> R`) equals the hand-written model kernel of Model/KM.v for ALL real
-   arguments.  Where a slice divides, the lemma is proved with `field` under the non-zero hypotheses it
-   needs only if the source was rewritten; as extracted today every lemma is unconditional. *)
+(* Bridge lemmas for property C19, part 2: the formula slices of estimateFootprint's chain, of the coordinates and
+   of estimateZ0's raw z0 / outlier cut / early-exit test (Gen.GenKM, regenerated on every run; a Section over
+   `Gamma : R -> R`) equal the hand-written model kernels of Model/KM.v for ALL real arguments.
+   Part 1 (helpers, tactics): KMHelpBridge.v. *)
 From Coq Require Import Reals Lra.
 From BL Require Import Model.KM.
-From Gen Require Import GenKM.
+From Gen Require Import GenKMHelp KMHelpBridge GenKM.
 Open Scope R_scope.
-
-(* equal up to a harmless algebraic rewrite of the source *)
-Ltac km_eq := first [ reflexivity | ring | (f_equal; ring) | (do 2 f_equal; ring) | (do 3 f_equal; ring)
-                    | (do 4 f_equal; ring) ].
-
-Ltac dec := repeat match goal with
-  | |- context [Rle_dec ?a ?b] => destruct (Rle_dec a b)
-  | |- context [Rlt_dec ?a ?b] => destruct (Rlt_dec a b)
-  end; try km_eq; try (exfalso; lra).
-
-Ltac decall := repeat match goal with
-  | |- context [Rle_dec ?a ?b] => destruct (Rle_dec a b)
-  | |- context [Rlt_dec ?a ?b] => destruct (Rlt_dec a b)
-  | H : context [Rle_dec ?a ?b] |- _ => destruct (Rle_dec a b)
-  | H : context [Rlt_dec ?a ?b] |- _ => destruct (Rlt_dec a b)
-  end; try km_eq; try (exfalso; lra).
-
-Lemma bridge_von_karman : gen_von_karman = vk.
-Proof. reflexivity. Qed.
-
-(* ---- helpers: zeros, mask L < 0, mask L >= 0  ==  if L < 0 then .. else .. *)
-Lemma bridge_phiM zm L : gen_phiM zm L = phiM zm L.
-Proof. unfold gen_phiM, phiM. dec. Qed.
-
-Lemma bridge_phiC zm L : gen_phiC zm L = phiC zm L.
-Proof. unfold gen_phiC, phiC. dec. Qed.
-
-Lemma bridge_psiM zm L : gen_psiM zm L = psiM zm L.
-Proof. unfold gen_psiM, psiM, zeta. dec. Qed.
-
-Lemma bridge_nParam zm L : gen_nParam zm L = nParam zm L.
-Proof. unfold gen_nParam, nParam. dec. Qed.
-
-Lemma bridge_mParam zm ws ustar L : gen_mParam zm ws ustar L = mParam zm ws ustar L.
-Proof. unfold gen_mParam, mParam. rewrite bridge_phiM, bridge_von_karman. km_eq. Qed.
 
 (* ---- estimateFootprint calls the helpers with (zm, mo_len) / (zm, ws, ustar, mo_len) *)
 Lemma bridge_fp_phi_m zm L : gen_fp_phi_m zm L = phiM zm L.
@@ -150,13 +114,3 @@ Proof. unfold z0clean, gen_z0_outlier. destruct (Rlt_dec 1000 z0); reflexivity. 
 
 Lemma bridge_z0_nosmooth w : gen_z0_nosmooth w = if Rlt_dec w 1 then true else false.
 Proof. reflexivity. Qed.
-
-Lemma bridge_idx1 wd kk : gen_idx1 wd kk = in_bin kk wd.
-Proof. reflexivity. Qed.
-
-(* the wrap + window test, on the domain of the window theorems (directions and bins in [0, 360), half
-   window at most 89 degrees); stated on the domain so that rewrites of the wrap that only differ outside
-   it (e.g. `wd >= 270`) still pass *)
-Lemma bridge_idx2 wd kk w : 0 <= kk < 360 -> 0 <= wd < 360 -> 0 <= w <= 89 ->
-  gen_idx2 (gen_wd_wrapped wd kk) kk w = in_window kk w wd.
-Proof. intros Hk Hd Hw. unfold gen_idx2, gen_wd_wrapped, in_window, wrapped. decall. Qed.
